@@ -188,6 +188,8 @@ where
         let goal = &pd.goal;
 
         let start_time = Instant::now();
+        #[cfg(feature = "verif")]
+        let start_time = crate::verif::VirtualInstant::now();
         let mut rng = self
             .rng
             .take()
